@@ -227,6 +227,8 @@ def main(argv: List[str]) -> None:
             sys.exit(1)
         sys.exit(0)
     except AnalysisError as e:
+        if os.environ.get("VERIF_TRACE"):
+            traceback.print_exc()
         print(f"ANALYSIS-ERROR property={prop}: {e}")
         _err_evidence(prop, args.tier, ctx, t0, str(e), holder)
         sys.exit(2)
